@@ -47,10 +47,12 @@ oracle (the real code alone)
   builder_api     : circuits built through `CircuitBuilder` / `build` S-expressions (core objects handed in,
                     python ints / floats of any finite magnitude as arguments and let values, counts given as
                     int / None / name, legal nesting) round-trip in the same sense
-  literal_zero_step_survives : programs with `map a r[x:y:0]` where a bound is a let (accepted: the zero-step check
-                    is skipped) round-trip — FAILS on the current tree, `notate_slice` drops the step (reported)
-  builder_api_integral_floats : the same when a register size or a `map` index is an integral python float
-                    (accepted by the constructors)
+  literal_zero_step_rejected : no accepted circuit has a slice alias with the literal step 0 (`notate_slice` would not
+                    write it); programs with `map a r[x:y:0]` next to a let bound are generated and must be rejected
+  (formerly separate oracles `literal_zero_step_survives`, `builder_api_integral_floats` and
+  `after_passes_with_shadowing_parameters` recorded three defects of the library that have been repaired; their cases
+  are now ordinary cases of the oracles above: an integral python float as register size / map index is stored as an
+  int, fill_in_map refuses to write a register name that a macro parameter shadows, fill_in_let keeps alias names)
 """
 import argparse
 import json
@@ -1233,10 +1235,8 @@ def call_driver(driver, reqs):
 
 # ------------------------------------------------------------------------------------------------ run
 
-ORACLES = ["reparse_equal", "text_fixpoint", "same_meaning", "nothing_lost", "after_passes",
-           "after_passes_with_shadowing_parameters", "builder_api",
-           "builder_api_integral_floats", "no_same_kind_nesting_from_parser", "generate_never_raises_on_parsed",
-           "literal_zero_step_survives"]
+ORACLES = ["reparse_equal", "text_fixpoint", "same_meaning", "nothing_lost", "after_passes", "builder_api",
+           "no_same_kind_nesting_from_parser", "generate_never_raises_on_parsed", "literal_zero_step_rejected"]
 
 
 class Acc:
@@ -1290,13 +1290,7 @@ def make_program(seed, idx):
 
 def trip_oracles(acc, c, gs, case, prog=None):
     """the direct oracles on one accepted circuit; returns the impl answer for `round_trip`"""
-    if has_zero_step(c):
-        # known violation (reported): `notate_slice` does not write a step of 0; kept apart so that the main oracles
-        # stay informative
-        ans, t, c2 = impl_round_trip(c, gs)
-        ok = c2 is not None and bool(c == c2) and ans.get("stable", False)
-        acc.check("literal_zero_step_survives", ok, case, f"generated: {t!r}")
-        return ans
+    acc.check("literal_zero_step_rejected", not has_zero_step(c), case, "a slice alias with the literal step 0 was accepted")
     ans, t, c2 = impl_round_trip(c, gs)
     acc.check("generate_never_raises_on_parsed", t is not None, case, f"{ans}")
     if t is None:
@@ -1323,7 +1317,9 @@ def trip_oracles(acc, c, gs, case, prog=None):
 
 
 def pass_oracles(acc, c, gs, case, rng, names, shadowing=False):
-    oname = "after_passes_with_shadowing_parameters" if shadowing else "after_passes"
+    oname = "after_passes"
+    if shadowing:
+        acc.dist["after_passes:program_with_shadowing_parameter"] += 1
     for name in names:
         try:
             cp = apply_pass(name, c, rng)
@@ -1384,20 +1380,14 @@ def process_program(acc, seed, idx, thorough):
         ask("parse_program", {"text": text, "natives": natives}, case, {"ok": dumpc(c)})
         ans = trip_oracles(acc, c, gs, case, prog=p)
         ask("round_trip", {"text": text, "natives": natives}, case, ans)
-        if "equal" in ans and not p.feat.get("map_slice_literal_zero_step"):
-            # the layers evaluated in the model agree with what the real code does: A and B always, C iff `==` and stable
-            pass
         if "equal" in ans and ans["equal"] and ans["stable"]:
             # the layer statements of the Lean development (tokens derive / lexing the generated text / rebuilding the
             # S-expression), evaluated inside the model: all hold whenever the real code round-trips
             ask("round_trip_layers", {"text": text, "natives": natives}, case, {"printable": True, "A": True, "B": True, "C": True})
         names = PASSES if thorough or idx % 2 == 0 else rng.sample(PASSES, 3)
-        if has_zero_step(c) and "equal" in ans and not ans["equal"]:
-            ask("round_trip_layers", {"text": text, "natives": natives}, case, {"printable": True, "A": True, "B": True, "C": False})
         shadow = any(k.startswith("param_shadows") for k in p.feat)
         acc.dist["semantically_illegal_nesting_accepted_by_builder"] += 1 if illegal_nesting(c) else 0
-        if not has_zero_step(c):
-            pass_oracles(acc, c, gs, case, rng, names, shadowing=shadow)
+        pass_oracles(acc, c, gs, case, rng, names, shadowing=shadow)
         if len(acc.samples) < 4 and len(text) > 150:
             acc.samples.append(case)
     # mutants: rejections (and the occasional accepted variant) for the correspondence
@@ -1418,7 +1408,9 @@ def process_program(acc, seed, idx, thorough):
 
 def process_api(acc, seed, idx, integral_floats):
     rng = random.Random(f"{seed}:c01api:{idx}:{integral_floats}")
-    oracle = "builder_api_integral_floats" if integral_floats else "builder_api"
+    oracle = "builder_api"
+    if integral_floats:
+        acc.dist["builder_api:integral_float_size_or_index"] += 1
     try:
         b, gs, desc = api_circuit(rng, integral_floats)
         expr = sx_json(b.expression)
